@@ -4,8 +4,10 @@ import St4sd.Gen.C11
 /-! Model driver for property C11.
 
 Request `{"op":"validate","doc":{"comps":[{"stage":n,"name":s,"refs":[[stage,name]…],"argRefs":[…],
-"opts":<json>,"vars":[[name,[used…]]…],"uses":[…]}…],"globals":[[name,[used…]]…]}}`
-→ `{"accepted":bool,"errors":[kinds…]}`; `{"op":"schema-paths"}` → the option paths of the generated schema. -/
+"opts":<json>,"vars":[[name,[used…]]…],"uses":[…],"replicate":n|null,"aggregate":bool}…],
+"globals":[[name,[used…]]…]}}`
+→ `{"accepted":bool,"errors":[kinds…],"nodes":[…],"edges":[[producer,consumer]…]}` (nodes and edges of the
+expanded document); `{"op":"schema-paths"}` → the option paths of the generated schema. -/
 open Lean Proto St4sd.ValSchema St4sd.Validate
 
 partial def toVal : Json → Val
@@ -32,7 +34,15 @@ def getDefs (j : Json) (k : String) : Except String (List (S × List S)) := do
 def getComp (j : Json) : Except String Comp := do
   return { stage := ← getNat j "stage", name := ← getChars j "name",
            refs := ← (← getArr j "refs").mapM getId, argRefs := ← (← getArr j "argRefs").mapM getId,
-           opts := toVal (← j.getObjVal? "opts"), vars := ← getDefs j "vars", uses := ← getCharsList j "uses" }
+           opts := toVal (← j.getObjVal? "opts"), vars := ← getDefs j "vars", uses := ← getCharsList j "uses",
+           replicate := (match j.getObjVal? "replicate" with
+                         | .ok v => (match v.getNat? with | .ok n => some n | _ => none)
+                         | _ => none),
+           aggregate := (match j.getObjVal? "aggregate" with
+                         | .ok (.bool b) => b
+                         | _ => false) }
+
+def idStr (i : Id) : String := s!"stage{i.1}.{String.ofList i.2}"
 
 def errKind : Err → String
   | .duplicate _ => "duplicate"
@@ -44,6 +54,8 @@ def errKind : Err → String
   | .undeclaredReferenceInArguments _ _ => "undeclared-reference-in-arguments"
   | .undefinedVariable _ _ => "undefined-variable"
   | .cycle => "cycle"
+  | .inconsistentReplicate _ => "inconsistent-replicate"
+  | .duplicateAfterReplication _ => "duplicate-after-replication"
 
 def handle (j : Json) : Except String Json := do
   let op ← getStr j "op"
@@ -53,7 +65,10 @@ def handle (j : Json) : Except String Json := do
     let d : Doc := { comps := ← (← getArr dj "comps").mapM getComp, globals := ← getDefs dj "globals" }
     let errs := validate St4sd.Gen.C11.convTable St4sd.Gen.C11.componentSchema d
     let kinds := (errs.map errKind).eraseDups
-    return jobj [("accepted", jbool errs.isEmpty), ("errors", jarr (kinds.map jstr))]
+    let ed := expandDoc d
+    return jobj [("accepted", jbool errs.isEmpty), ("errors", jarr (kinds.map jstr)),
+                 ("nodes", jarr ((ids ed).map (fun i => jstr (idStr i)))),
+                 ("edges", jarr ((edges ed).map (fun e => jarr [jstr (idStr e.1), jstr (idStr e.2)])))]
   | "schema-paths" =>
     return jobj [("paths", jarr (St4sd.Gen.C11.optionPaths.map (fun p => jarr (p.map jchars))))]
   | _ => throw s!"unknown op {op}"
